@@ -4,6 +4,7 @@ from props.common import svt, gens, summarize_cfg, differential, run_status
 
 ID = "C13"
 LEVEL = "exploration"
+TAG_KEYS = True   # violation keys get the configuration feature tag appended (engine.feature_tag)
 RULE = ("Hypothesis draws a sparse set of explicit settings (always source size), content, N and 2-3 prior-memory patterns for the caller's EbSvtAv1EncConfiguration "
         "from {0xFF, 0xA5, random bytes(seed), bytes left over from another valid configuration}; the struct is pre-filled, svt_av1_enc_init_handle is called, only "
         "the explicit settings are written, then set_parameter/init/encode. Oracle: every pattern is accepted iff the zero-filled reference is, and packets+recon are "
